@@ -1,7 +1,7 @@
 (* C06  A held key decodes as the same code on every frame of the sequence — model of IrProtocolBase.decode with a held key
    (classes that do not override decode; repeat marker = fixed lead-in/lead-out, i.e. _repeat_bursts empty). *)
 From Coq Require Import ZArith List Bool.
-Require Import PyIR.Base.Result PyIR.IW.IW PyIR.Engine.Parse PyIR.Proto.Descriptor PyIR.Proto.RoundTrip PyIR.Proto.C03Check PyIR.Ctl.Instance.
+Require Import PyIR.Base.Result PyIR.IW.IW PyIR.Engine.Parse PyIR.Proto.Descriptor PyIR.Proto.RoundTrip PyIR.Proto.C03Check PyIR.Proto.Model PyIR.Ctl.Instance PyIR.Ctl.InstanceChk.
 Import ListNotations.
 Open Scope Z_scope.
 
@@ -24,6 +24,33 @@ Proof. exact held_key_same_frame_sequence. Qed.
 Theorem C06_no_history : forall D t tol R, snd (fst (decode_inst D t tol fresh R)) = base_decode D t tol R.
 Proof. exact marker_without_history. Qed.
 
+(* the same for classes that override decode() after the common template: base decode, the protocol's own checks [chk]
+   (any function of the decoded fields), then the held-key block.  The key's fields must pass the checks. *)
+Theorem C06_marker_sequence_with_checks : forall D t tol chk c F R p n,
+  negb (is_nil (d_rep_lead_in D)) || negb (is_nil (d_rep_lead_out D)) = true ->
+  base_decode D t tol F = Ok c -> check_of chk c = None ->
+  parseH tol (d_rep_lead_in D) (d_rep_lead_out D) [] R = Ok p ->
+  run_seq_chk D t tol chk fresh (F :: repeat R n) = repeat (Ok c) (S n).
+Proof. exact held_key_marker_sequence_chk. Qed.
+
+Theorem C06_same_frame_sequence_with_checks : forall D t tol chk c F n,
+  Forall (fun e => e <> PLACEHOLDER) (d_rep_lead_out D) ->
+  List.length F <> (List.length (d_rep_lead_in D) + List.length (d_rep_lead_out D))%nat ->
+  base_decode D t tol F = Ok c -> check_of chk c = None ->
+  run_seq_chk D t tol chk fresh (repeat F (S n)) = repeat (Ok c) (S n).
+Proof. exact held_key_same_frame_sequence_chk. Qed.
+
+Theorem C06_no_history_with_checks : forall D t tol chk R,
+  snd (fst (decode_inst_chk D t tol chk fresh R)) =
+  match base_decode D t tol R with
+  | Ok c => match check_of chk c with Some err => err | None => Ok c end
+  | r => r
+  end.
+Proof. exact marker_without_history_chk. Qed.
+
 Print Assumptions C06_marker_sequence.
 Print Assumptions C06_same_frame_sequence.
 Print Assumptions C06_no_history.
+Print Assumptions C06_marker_sequence_with_checks.
+Print Assumptions C06_same_frame_sequence_with_checks.
+Print Assumptions C06_no_history_with_checks.
